@@ -17,6 +17,16 @@ INDEX = {
    {"name": "VerifH01Shift", "quick": {"bounds": {"array": 3, "runs": 2, "words": 1, "bases": 2, "wordmask6": 1}}},
    {"name": "VerifH01Convert", "common": {"max_depth": 2000}, "quick": {"bounds": {"array": 2, "runs": 2, "words": 1, "bases": 2, "wordmask6": 1, "runlen": 3}}},
  ]},
+ "C02": {"package": "./roaring", "harnesses": [
+   {"name": "VerifH02HistorySlice", "common": {"max_depth": 2000}, "quick": {"bounds": {"steps": 2, "ops": 6, "keys": 2}}, "thorough": {"bounds": {"steps": 3, "ops": 6, "keys": 2}, "max_paths": 400000}},
+   {"name": "VerifH02HistoryBTree", "common": {"max_depth": 2000}, "quick": {"bounds": {"steps": 2, "ops": 6, "keys": 2}}, "thorough": {"bounds": {"steps": 3, "ops": 6, "keys": 2}, "max_paths": 400000}},
+   {"name": "VerifH02PointOpsSlice", "common": {"max_depth": 2000}, "quick": {"bounds": {"steps": 3, "ops": 2, "keys": 2}}, "thorough": {"bounds": {"steps": 4, "ops": 3, "keys": 2}}},
+   {"name": "VerifH02PointOpsBTree", "common": {"max_depth": 2000}, "quick": {"bounds": {"steps": 3, "ops": 2, "keys": 2}}, "thorough": {"bounds": {"steps": 4, "ops": 3, "keys": 2}}},
+ ]},
+ "C04": {"package": "./roaring", "harnesses": [
+   {"name": "VerifH04RoundTrip", "common": {"max_depth": 2000}, "quick": {"bounds": {"containers": 1, "array": 2, "runs": 2, "words": 1, "bases": 1, "wordmask6": 1, "keychoices": 2}}, "thorough": {"bounds": {"containers": 2, "array": 3, "runs": 3, "words": 1, "bases": 2, "wordmask6": 1, "keychoices": 2}}},
+   {"name": "VerifH04Import", "common": {"max_depth": 2000}, "quick": {"bounds": {"array": 1, "runs": 1, "words": 1, "bases": 1, "wordmask6": 1, "runlen": 2, "near": 1, "full": 1, "tkinds": 2, "ttyps": 1, "styps": 1}}, "thorough": {"bounds": {"array": 2, "runs": 2, "words": 1, "bases": 1, "wordmask6": 1, "runlen": 3, "near": 1, "full": 1, "tkinds": 2}}},
+ ]},
  "C06": {"package": "./roaring", "harnesses": [
    {"name": "VerifH06UnmarshalBinary", "common": {"max_depth": 2000}, "quick": {"bounds": {"len": 12}}, "thorough": {"bounds": {"len": 20}}},
    {"name": "VerifH06UnmarshalPilosa", "common": {"max_depth": 2000}, "quick": {"bounds": {"len": 20}}, "thorough": {"bounds": {"len": 32}}},
@@ -27,7 +37,7 @@ INDEX = {
    {"name": "VerifH07History", "common": {"max_depth": 2000}, "quick": {"bounds": {"steps": 2, "ops": 9, "rows": 2, "colhis": 1, "caches": 1}}, "thorough": {"bounds": {"steps": 2, "ops": 9, "rows": 3, "colhis": 2, "caches": 3}}},
  ]},
  "C10": {"package": ".", "harnesses": [
-   {"name": "VerifH10Checksums", "common": {"max_depth": 2000}, "quick": {"bounds": {"ops": 9, "rows": 3, "colhis": 1, "caches": 1}}, "thorough": {"bounds": {"ops": 9, "rows": 3, "colhis": 2, "caches": 3}}},
+   {"name": "VerifH10Checksums", "common": {"max_depth": 2000}, "quick": {"bounds": {"ops": 9, "rows": 2, "colhis": 1, "caches": 3}}, "thorough": {"bounds": {"ops": 9, "rows": 3, "colhis": 2, "caches": 3}}},
  ]},
  "C17": {"package": ".", "harnesses": [
    {"name": "VerifH17MinReducer", "quick": {"bounds": {"partials": 3}}, "thorough": {"bounds": {"partials": 4}}},
